@@ -1,4 +1,6 @@
 CONSTANTS
+  NParts = 1
+  Part = 0
   NConns = 1
   NUp = 1
   NDown = 0
@@ -10,6 +12,7 @@ CONSTANTS
   StdinClose = FALSE
   Mode = "socks"
   DialFails = TRUE
+  SfScripted = TRUE
   EnvLite = TRUE
   AsIs_Spin = FALSE
   AsIs_SharedConfig = FALSE
